@@ -446,6 +446,22 @@ Lemma noninterference_world g1 g2 ops :
   same_servers g1 g2 -> pview (runw g1 world0 ops) = pview (runw g2 world0 ops).
 Proof. intros SS. apply runw_pview; [assumption | reflexivity]. Qed.
 
+(** a step of a mirror task (or of the mirror) changes nothing on the client path *)
+Lemma env_step_pview g w cid j e : pview (step g w (Env cid j e)) = pview w.
+Proof.
+  unfold pview; simpl. rewrite (map_upd_nth_id pconn (conn_env j e)) by (intros x; reflexivity). reflexivity.
+Qed.
+
+(** ... so erasing every mirror-task step from a schedule leaves the client path as it was *)
+Lemma client_path_independent g ops : forall w1 w2, pview w1 = pview w2 ->
+  pview (runw g w1 ops) = pview (runw g w2 (filter client_op ops)).
+Proof.
+  unfold runw. induction ops as [|o r IH]; intros w1 w2 E; [exact E|].
+  cbn [fold_left filter]. destruct (client_op o) eqn:C.
+  - cbn [fold_left]. apply IH. apply step_pview; [reflexivity | assumption].
+  - destruct o; try discriminate. apply IH. rewrite env_step_pview. assumption.
+Qed.
+
 Lemma strip_same g : same_servers g (strip_mirrors g).
 Proof. unfold same_servers, strip_mirrors. rewrite map_map. simpl. reflexivity. Qed.
 
